@@ -73,12 +73,16 @@ def procinfo(proc):
     cls = resolve_symbol(proc)
     md = cls.get_metadata()
     kind = KINDS.get(md.get("component_type"), "KOther")
+    suppressed = []
     if kind == "KOther":
-        required = sorted(build_pipeline_inspection([{"processor": proc}]).required_context_keys)
+        bare = build_pipeline_inspection([{"processor": proc}])
+        required = sorted(bare.required_context_keys)
+        suppressed = sorted(bare.nodes[0].suppressed_keys)
     else:
         required = [n for n in md.get("parameters", {}) if _default_for(cls, n) is _NO_DEFAULT]
     created = list(getattr(cls, "get_created_keys", lambda: [])())
-    info = {"fqcn": "%s.%s" % (cls.__module__, cls.__qualname__), "kind": kind, "required": required, "created": created}
+    info = {"fqcn": "%s.%s" % (cls.__module__, cls.__qualname__), "kind": kind, "required": required, "created": created,
+            "suppressed": suppressed}
     _INFO[proc] = info
     return info
 
@@ -363,11 +367,23 @@ def jlit(v):
     raise ValueError("value outside the JSON fragment: %r" % (v,))
 
 
+TWO_RANGE = [None]
+
+
+def two_range():
+    if TWO_RANGE[0] is None:
+        import os
+        from harness import core
+        txt = open(os.path.join(core.COQ, "Gen", "IdentityGen.v")).read()
+        TWO_RANGE[0] = "two_number_list_is_range : bool := true" in txt
+    return TWO_RANGE[0]
+
+
 def var_lit(spec):
     """Documented forms of a sweep variable (node_preprocess._convert_var_specs), incl. the code's
     two-number-list rule."""
     if isinstance(spec, list):
-        if len(spec) == 2 and all(isinstance(x, (int, float)) and not isinstance(x, bool) for x in spec):
+        if two_range() and len(spec) == 2 and all(isinstance(x, (int, float)) for x in spec):
             return "(VRange %s %s %s %s true)" % (cq_str(json.dumps(float(spec[0]))), cq_str(json.dumps(float(spec[1]))),
                                                  cq_str("10"), cq_str("linear"))
         return "(VSeq %s)" % cq_list([jlit(x) for x in spec])
@@ -384,7 +400,7 @@ def var_lit(spec):
 
 def seq_values(spec):
     if isinstance(spec, list):
-        if len(spec) == 2 and all(isinstance(x, (int, float)) and not isinstance(x, bool) for x in spec):
+        if two_range() and len(spec) == 2 and all(isinstance(x, (int, float)) for x in spec):
             return None
         return list(spec)
     if isinstance(spec, dict) and "from_context" not in spec and not {"lo", "hi", "steps"} <= set(spec) and "values" in spec:
@@ -404,10 +420,10 @@ def node_lit(n):
                   cq_list(["(%s, %s)" % (cq_str(k), var_lit(v)) for k, v in sw["variables"].items()]),
                   cq_str(sw.get("mode", "combinatorial")), cq_bool(bool(sw.get("broadcast", False))),
                   cq_opt(fqcn(coll) if coll else None, cq_str)))
-    return ("{| n_proc := %s; n_params := %s; n_info := {| pi_fqcn := %s; pi_kind := %s; pi_required := %s; pi_created := %s |}; "
+    return ("{| n_proc := %s; n_params := %s; n_info := {| pi_fqcn := %s; pi_kind := %s; pi_required := %s; pi_created := %s; pi_suppressed := %s |}; "
             "n_ctxkey := %s; n_sweep := %s |}"
             % (cq_str(n["processor"]), cq_list(["(%s, %s)" % (cq_str(k), jlit(v)) for k, v in (n.get("parameters") or {}).items()]),
-               cq_str(info["fqcn"]), info["kind"], cq_list(info["required"], cq_str), cq_list(info["created"], cq_str),
+               cq_str(info["fqcn"]), info["kind"], cq_list(info["required"], cq_str), cq_list(info["created"], cq_str), cq_list(info["suppressed"], cq_str),
                cq_opt(n.get("context_key") if info["kind"] == "KProbe" else None, cq_str), swl))
 
 
